@@ -1,6 +1,9 @@
 package main
 
-import "time"
+import (
+	"fmt"
+	"time"
+)
 
 var grantsCodeHybrid = []Op{{Op: "authz", Client: "A", Flow: "code"}, {Op: "authz", Client: "P", Flow: "code"}, {Op: "authz", Client: "A", Flow: "hyb-idt"}, {Op: "authz", Client: "A", Flow: "hyb-tok"}}
 
@@ -24,6 +27,7 @@ func init() {
 		r.Rule = "explicit-state BFS over API histories; a state is the canonical dump of all store tables + clock + model; every transition replays the whole history on a fresh provider and compares each step with the reference model, then introspects every token ever issued"
 		r.Assumptions = []string{"model: a code yields tokens at most once; any later presentation by an authenticated client answers invalid_grant and kills every token-endpoint-issued token of that grant", "tokens issued by the authorization endpoint itself (hybrid) are not descendants of the code"}
 		famSearch(r, specs)
+		overlapPart(r, []string{"code", "code-oidc", "code-pkce"})
 	})
 
 	registerCheck("C04", "model_checking", 150*time.Second, 40*time.Minute, func(r *Run) {
@@ -47,6 +51,7 @@ func init() {
 		r.Assumptions = []string{"model: a refresh token is exchanged at most once; exchange rotates it and its sibling access token; presenting a used one (any authenticated client, expired or not) answers invalid_grant and kills all token-endpoint-issued tokens of the grant; other grants untouched",
 			"state after refusing a never-used token (foreign presenter / revoked token) is not pinned by the statement: the model adopts what introspection reports (counted as dont_care)"}
 		famSearch(r, specs)
+		overlapPart(r, []string{"refresh", "refresh-oidc"})
 	})
 	registerCheck("C08", "model_checking", 150*time.Second, 40*time.Minute, func(r *Run) {
 		depth := 4
@@ -93,4 +98,19 @@ func init() {
 		r.Assumptions = []string{"model liveness: issued, unexpired (1s don't-care window around expiry), not rotated/revoked/killed", "scope coverage judged by an independent reimplementation of the three scope strategies"}
 		famSearch(r, specs)
 	})
+}
+
+// overlapPart: overlapping requests on one credential at API-phase granularity (see overlap.go).
+func overlapPart(r *Run, kinds []string) {
+	maxN := 3
+	if !r.Quick() {
+		maxN = 4
+	}
+	res := r.Pool.Do("overlap", overlapJobs(kinds, maxN, []bool{false, true}, []bool{false, true}), r.Deadline)
+	if !r.MergeJobs(res) {
+		r.Exhaustive = false
+	}
+	if r.Bounds != nil {
+		r.Bounds["overlapping_requests"] = fmt.Sprintf("%v: 2..%d identical token requests on one credential, every interleaving of their NewAccessRequest / NewAccessResponse phases, x {HMAC,JWT} x {plain,transactional store}", kinds, maxN)
+	}
 }
